@@ -1,5 +1,7 @@
 package main
 
+import "strings"
+
 func init() {
 	replayGens["config.(*Config).handleSvcEndpointUpdate"] = replayAnnouncedTwice
 }
@@ -7,7 +9,7 @@ func init() {
 // first endpoint update of a configured service lists only removals: the service is announced without
 // an endpoint list and stays "never announced" for the store, so the next update announces it again
 func replayAnnouncedTwice(rc *ReplayCtx) (string, string, string, bool) {
-	if rc.o.Kind != "post" {
+	if rc.o.Kind != "post" || !strings.Contains(rc.o.Name, "announce") {
 		return "", "", "", false
 	}
 	src := `package config
@@ -53,7 +55,7 @@ func init() {
 // an invalid configuration (for which the controller cannot start a processor) is later corrected:
 // the store sends a configuration update for a processor that does not exist
 func replayCorrectedConfig(rc *ReplayCtx) (string, string, string, bool) {
-	if rc.o.Kind != "post" {
+	if rc.o.Kind != "post" || !strings.Contains(rc.o.Name, "a-corrected-configuration") {
 		return "", "", "", false
 	}
 	src := `package config
